@@ -29,9 +29,14 @@ def bounds(tier):
             'window': 'START, [lookup records], END on one thread; no unrelated records'}
 
 
+PROBES = ['MSC_mach_vm_protect_trap', 'MSC_mach_port_guard_trap', 'BSC_read', 'BSC_mmap']
+
+
 def structures(tier):
     sts = []
     for n in sweep.decoder_names():
+        if tier == 'thorough' or n.startswith('MSC_') or sweep.weight({'name': n}) == 1 and sum(n.encode()) % 4 == 0:
+            sts.append({'name': n, 'kind': 'history'})
         sts.append({'name': n, 'lookups': 1, 'len': 3})
         if tier == 'thorough':
             sts.append({'name': n, 'lookups': 0})
@@ -49,7 +54,31 @@ def _forms(ak):
     return [t, z3.ZeroExt(W - 32, lo32), z3.SignExt(W - 64, lo64)]
 
 
+def run_history(ctx, st):
+    """decode Y, then a few other calls (probes, words 0/1 and free), then Y again on the same words: same text"""
+    name = st['name']
+    a = [ctx.int('a%d' % i) for i in range(4)]
+    r = [ctx.int('r%d' % i) for i in range(4)]
+    o1 = sweep.run_window(ctx, name, a, r)
+    if o1.kind != 'text':
+        ctx.reach('outcome:' + o1.kind); ctx.reach(); return
+    for i, pr in enumerate(PROBES):
+        pa = [ctx.int('p%d_%d' % (i, j)) for j in range(4)]
+        sweep.run_window(ctx, pr, [pa[0], pa[1], pa[2], pa[3] & 1], [0, 0, 0, 0])
+    o2 = sweep.run_window(ctx, name, a, r)
+    L = 'C09/%s' % name
+    if o2.kind != 'text':
+        ctx.check(L + '/history-independent', False, 'second decoding: ' + o2.kind)
+    else:
+        same = sweep.pieces_equal(o1.pieces, o2.pieces) if ctx.symbolic else o1.text == o2.text
+        ctx.check(L + '/history-independent', same, 'same words render differently after other calls were decoded: %r / %r' % (
+            None if ctx.symbolic else o1.text, None if ctx.symbolic else o2.text))
+    ctx.reach()
+
+
 def run(ctx, st):
+    if st.get('kind') == 'history':
+        return run_history(ctx, st)
     name = st['name']
     a = [ctx.int('a%d' % i) for i in range(4)]
     r = [ctx.int('r%d' % i) for i in range(4)]
